@@ -15,7 +15,7 @@ use std::time::{Duration, Instant};
 use vcore::drive::sample_values;
 use vcore::rt::{self, Acc, Args, Report};
 
-const RULE: &str = "A case = (mode: stripping via NO_COLOR=1 | pass-through via CLICOLOR_FORCE=1, stream: stdout | stderr, API: print!/eprint!, println!/eprintln!, write!, writeln!, write_all, threads 2..16, prints per thread, fragments per print 1..6, gate position). Each print emits one record <tid:seq|f1..fk|tid:seq> built from k {} arguments (each wrapped in SGR codes) and literal pieces. In gated cases one fragment is a Display that, in the middle of the call, wakes a contender thread which performs a complete print of its own, and waits until the contender finished or 8 ms passed. Oracle: the bytes read from the pipe parse as a sequence of complete records whose payload is the expected (stripped or verbatim) text; per thread the sequence numbers are complete and increasing. Register: reader's (c1, value, c2) windows against one writer's published history; last-writer-wins after joins. Non-trivial = a gated print during which the contender was really started (measured in the child), distinct by (case, print).";
+const RULE: &str = "A case = (mode: stripping via NO_COLOR=1 | pass-through via CLICOLOR_FORCE=1, stream: stdout | stderr, API: print!/eprint!, println!/eprintln!, write!, writeln!, write_all, threads 2..16, prints per thread, fragments per print 1..6, gate position). Each print emits one record <tid:seq|f1..fk|tid:seq> built from k {} arguments (each wrapped in SGR codes) and literal pieces. In gated cases one fragment is a Display that, in the middle of the call, wakes a contender thread which performs a complete print of its own, and waits until the contender finished or 8 ms passed. Oracle: the bytes read from the pipe parse as a sequence of complete records whose payload is the expected (stripped or verbatim) text; per thread the sequence numbers are complete and increasing. Register: reader's (c1, value, c2) windows against one writer's published history; last-writer-wins after joins. Large-record cases: the same records with a first fragment padded to 64..200 KiB (one letter per thread). Non-trivial = a gated print during which the contender was really started (measured in the child), distinct by (case, print); for large-record cases every record counts.";
 
 #[derive(Clone, Copy, Debug, PartialEq, Eq, Serialize, Deserialize)]
 enum Api {
@@ -37,14 +37,26 @@ struct Case {
     /// number of gated prints performed by thread 0 (0 = free-running stress only)
     gated: usize,
     gate_pos: usize,
+    /// extra length of the first fragment (records far larger than any internal buffer)
+    #[serde(default)]
+    pad: usize,
 }
 
-fn fragment(tid: usize, seq: usize, i: usize) -> String {
-    format!("\x1b[3{}m{}.{}.{}\x1b[0m", i % 8, tid, seq, "x".repeat(1 + (tid + seq + i) % 5))
+/// the padding of fragment 0: one letter per thread, so that a foreign piece inside it is visible
+fn padding(case: &Case, tid: usize, i: usize) -> String {
+    if i == 0 && case.pad > 0 {
+        ((b'A' + (tid % 26) as u8) as char).to_string().repeat(case.pad)
+    } else {
+        String::new()
+    }
 }
 
-fn fragment_plain(tid: usize, seq: usize, i: usize) -> String {
-    format!("{}.{}.{}", tid, seq, "x".repeat(1 + (tid + seq + i) % 5))
+fn fragment(case: &Case, tid: usize, seq: usize, i: usize) -> String {
+    format!("\x1b[3{}m{}.{}.{}{}\x1b[0m", i % 8, tid, seq, "x".repeat(1 + (tid + seq + i) % 5), padding(case, tid, i))
+}
+
+fn fragment_plain(case: &Case, tid: usize, seq: usize, i: usize) -> String {
+    format!("{}.{}.{}{}", tid, seq, "x".repeat(1 + (tid + seq + i) % 5), padding(case, tid, i))
 }
 
 fn expected_record(case: &Case, tid: usize, seq: usize) -> String {
@@ -54,9 +66,9 @@ fn expected_record(case: &Case, tid: usize, seq: usize) -> String {
             s.push(' ');
         }
         if case.strip {
-            s.push_str(&fragment_plain(tid, seq, i));
+            s.push_str(&fragment_plain(case, tid, seq, i));
         } else {
-            s.push_str(&fragment(tid, seq, i));
+            s.push_str(&fragment(case, tid, seq, i));
         }
     }
     s.push_str(&format!("|{tid}:{seq}>"));
@@ -115,7 +127,7 @@ impl std::fmt::Display for Frag<'_> {
 
 fn do_print(case: &Case, tid: usize, seq: usize, gate: Option<&GateShared>) {
     let fr: Vec<Frag<'_>> = (0..case.fragments)
-        .map(|i| Frag { text: fragment(tid, seq, i), gate: if gate.is_some() && i == case.gate_pos % case.fragments { gate } else { None } })
+        .map(|i| Frag { text: fragment(case, tid, seq, i), gate: if gate.is_some() && i == case.gate_pos % case.fragments { gate } else { None } })
         .collect();
     macro_rules! args_call {
         ($mac:ident; $($pre:expr),*) => {
@@ -261,10 +273,19 @@ fn parse_output(case: &Case, out: &str, contender_prints: usize) -> Result<u64, 
         let want = expected_record(case, tid, seq);
         if !rest.starts_with(&want) {
             let l = want.len().min(rest.len());
+            if l <= 400 {
+                return Err(format!(
+                    "record {tid}:{seq} is not contiguous at byte {pos}: read {:?}, one print call produces {:?}",
+                    &rest[..(l + 40).min(rest.len())],
+                    want
+                ));
+            }
+            // long records: show the neighbourhood of the first difference only
+            let d = rest.bytes().zip(want.bytes()).position(|(a, b)| a != b).unwrap_or(l);
+            let win = |t: &str| String::from_utf8_lossy(&t.as_bytes()[d.saturating_sub(30).min(t.len())..(d + 40).min(t.len())]).into_owned();
             return Err(format!(
-                "record {tid}:{seq} is not contiguous at byte {pos}: read {:?}, one print call produces {:?}",
-                &rest[..(l + 40).min(rest.len())],
-                want
+                "record {tid}:{seq} ({} bytes) is not contiguous: at byte {} of the record (output byte {}) read ...{:?}..., one print call produces ...{:?}...",
+                want.len(), d, pos + d, win(rest), win(&want)
             ));
         }
         let e = next.entry(tid).or_insert(0);
@@ -348,7 +369,21 @@ fn arb_case(gated: bool) -> impl Strategy<Value = Case> {
             fragments,
             gated: if gated { 5 } else { 0 },
             gate_pos,
+            pad: 0,
         })
+}
+
+/// records of 64 KiB .. 200 KiB: larger than the pipe buffer and any plausible internal chunk size
+fn arb_large_case() -> impl Strategy<Value = Case> {
+    (
+        any::<bool>(),
+        any::<bool>(),
+        prop_oneof![2 => Just(Api::WriteAll), 1 => Just(Api::Print), 1 => Just(Api::Println), 1 => Just(Api::Write), 1 => Just(Api::Writeln)],
+        2usize..=6,
+        1usize..=3,
+        prop::sample::select(vec![65_400usize, 65_536, 66_000, 131_072, 140_000, 200_000]),
+    )
+        .prop_map(|(strip, stderr, api, threads, fragments, pad)| Case { strip, stderr, api, threads, prints: 10, fragments, gated: 0, gate_pos: 0, pad })
 }
 
 // ---- register
@@ -528,9 +563,11 @@ fn run(args: &Args, rep: &mut Report) {
     // gated cases
     let gated_cases = sample_values(rt::derive_seed(args.seed, "gated", 0), tier.pick(150, 1500), &arb_case(true));
     let stress_cases = sample_values(rt::derive_seed(args.seed, "stress", 0), tier.pick(48, 400), &arb_case(false));
+    let large_cases = sample_values(rt::derive_seed(args.seed, "large", 0), tier.pick(24, 240), &arb_large_case());
     for (name, cases, bound) in [
         ("gated-prints", gated_cases, "generated cases with 5 gated prints each (2..4 threads + contender)"),
         ("free-running-stress", stress_cases, "generated cases with 2..16 threads x 400 prints, no gate"),
+        ("large-records", large_cases, "generated cases with 2..6 threads x 10 prints of 64..200 KiB each (one-letter-per-thread padding), all APIs, no gate"),
     ] {
         // children are run a few at a time: the gate needs idle cores to be meaningful
         let par_children = 4;
@@ -545,7 +582,7 @@ fn run(args: &Args, rep: &mut Report) {
                 match run_case(case) {
                     Ok(r) => {
                         acc.evals += r.records;
-                        acc.nontrivial_counted += r.started_during_call;
+                        acc.nontrivial_counted += if case.pad > 0 { r.records } else { r.started_during_call };
                         let _ = r.completed_during_call;
                         acc.sample(|| serde_json::to_value(case).unwrap());
                     }
